@@ -795,9 +795,12 @@ def forward(fn, init, transfer, join, edge=None, start=None, top=None):
         for si, s in enumerate(blk.succ):
             if s is None:
                 continue
-            st2 = edge(blk, si, st) if edge else st
-            if st2 is None:
-                continue
+            if edge:
+                st2 = edge(blk, si, st)
+                if st2 is None:
+                    continue
+            else:
+                st2 = st
             if s not in instate:
                 instate[s] = st2
                 work.append(s)
@@ -884,7 +887,7 @@ PRIMITIVES = {
 
 class Inliner:
     def __init__(self, prog, depth=8, primitives=None, method_table=None,
-                 expand_methods=False, stop=None, max_blocks=20000):
+                 expand_methods=False, stop=None, max_blocks=20000, prune=False):
         self.prog = prog
         self.depth = depth
         self.prims = PRIMITIVES if primitives is None else primitives
@@ -892,6 +895,7 @@ class Inliner:
         self.expand_methods = expand_methods or (method_table is not None)
         self.stop = stop or (lambda f: False)
         self.max_blocks = max_blocks
+        self.prune = prune
         self.counter = 0
 
     def inline(self, f):
@@ -913,6 +917,9 @@ class Inliner:
             for i, e in enumerate(b.events):
                 e['_b'] = b.id
                 e['_i'] = i
+        if self.prune:
+            from .analyses import prune_infeasible
+            g.pruned_edges = prune_infeasible(g)
         return g
 
     def _newblock(self, events, succ, term, noreturn=False):
